@@ -252,7 +252,7 @@ def _e1_shards(tier):
         base = {"threads": 2, "ops_per_thread": 1, "P": 2}
         return [dict(base, prefix=p) for p in enumerate_prefixes(body_E1, "X", {}, base, 2)] + [dict(scripted, prefix=p) for p in enumerate_prefixes(body_E1, "X", {}, scripted, 2)]
     out = [dict(dict(scripted, P=3), prefix=p) for p in enumerate_prefixes(body_E1, "X", {}, dict(scripted, P=3), 3)]
-    base = {"threads": 2, "ops_per_thread": 1, "P": 1000}
+    base = {"threads": 2, "ops_per_thread": 1, "P": 4}
     out += [dict(base, prefix=p) for p in enumerate_prefixes(body_E1, "X", {}, base, 2)]
     base = {"threads": 3, "ops_per_thread": 1, "P": 2, "menu": ["write-typed", "write-traceback", "validate", "flush", "reset"]}
     out += [dict(base, prefix=p) for p in enumerate_prefixes(body_E1, "X", {}, base, 3)]
@@ -264,7 +264,7 @@ def _e1_shards(tier):
 def _e2_shards(tier):
     if tier == "quick":
         return [{"threads": 2, "msgs": 2, "P": 3}]
-    return [{"threads": 2, "msgs": 2, "P": 1000}, {"threads": 3, "msgs": 2, "P": 3}]
+    return [{"threads": 2, "msgs": 2, "P": 4}, {"threads": 3, "msgs": 1, "P": 3}]
 
 
 OBLIGATIONS = [
@@ -278,7 +278,7 @@ OBLIGATIONS = [
         shards=_e1_shards,
         twin=[{"threads": 2, "ops_per_thread": 1, "P": 2, "twin_label": "interleaved"}],
         timeout={"quick": 100, "thorough": 1500},
-        bounds={"quick": "2 threads x 1 operation each from 8 kinds (64 assignments), and validate|serialize|flush racing a reset-then-write script on a logger that already holds a message; every schedule with <= 2 preemptions at line granularity in eliot/_output.py", "thorough": "2 threads x 1 op: all schedules (unbounded preemption); 3 threads x 1 op from 5 kinds and 2 threads x 2 ops from 3 kinds with <= 2 preemptions"},
+        bounds={"quick": "2 threads x 1 operation each from 8 kinds (64 assignments), and validate|serialize|flush racing a reset-then-write script on a logger that already holds a message; every schedule with <= 2 preemptions at line granularity in eliot/_output.py", "thorough": "2 threads x 1 op with <= 4 preemptions; 3 threads x 1 op from 5 kinds and 2 threads x 2 ops from 3 kinds with <= 2 preemptions; the scripted race with <= 3"},
     ),
     Ob(
         "E2",
@@ -290,6 +290,6 @@ OBLIGATIONS = [
         shards=_e2_shards,
         twin=[{"threads": 2, "msgs": 2, "P": 3, "twin_label": "interleaved"}],
         timeout={"quick": 100, "thorough": 900},
-        bounds={"quick": "2 threads x 2 messages, <= 3 preemptions, line granularity", "thorough": "2 threads x 2 messages all schedules; 3 threads x 2 messages <= 3 preemptions"},
+        bounds={"quick": "2 threads x 2 messages, <= 3 preemptions, line granularity", "thorough": "2 threads x 2 messages <= 4 preemptions; 3 threads x 1 message <= 3 preemptions"},
     ),
 ]
